@@ -84,9 +84,17 @@ package fiber
 //@   ensures result == c.app
 
 // SendStatus as seen by the ghost response state of fiber_ctx.spec (the concrete method of Ctx.SendStatus).
-//@ func (*DefaultCtx).SendStatus assumed
-//@   modifies sentStatus, heap
+// Checked against its body since round B: the status goes through (*DefaultCtx).Status (zz_contracts_rootassumed_verif.go),
+// the body is only written when the response has none, and the call cannot fail (the two request handlers drop the
+// result: "Always return nil").
+//@ func (*DefaultCtx).SendStatus
+//@   props C08 C07
+//@   modifies sentStatus, outStatus, outStatusSet, heap
+//@   atcall (*DefaultCtx).Status: status-as-given-on-this-context: c == old(c) && status == old(status)
+//@   atcall (*DefaultCtx).SendString: status-text-only-into-an-empty-body: c == old(c) && rBody(&c.fasthttp.Response, epochNow) == ""
 //@   ensures sentStatus == status
+//@   ensures status-written-to-the-response: outStatusSet && outStatus == status
+//@   ensures never-fails: result == nil
 
 // The error returned by the chain (second result of next; `last((*App).next_1)` names it) is handed to
 // ErrorHandler exactly once iff it is not nil; SendStatus(500) iff that handler itself failed; 501 and no
